@@ -96,38 +96,51 @@ theorem compileAnnAssign_comm {n : Ast} {prog : Prog} (hn : n.isNode = true) (hq
   simp only [compileAnnAssign, getOptNode_mapPos h1, h2', get_mapPos h3, this, h4', bind, Except.bind, pure, Except.pure,
     List.map_append, generic_mapPos (ψ := ψ)]
 
-theorem importAlias_comm {loc start : Pos} {a : Ast} {prog : Prog} (h : importAlias loc start a = .ok prog) :
-    importAlias (ψ loc) (φ start) (a.mapPos φ) = .ok (prog.map (Instr.mapP φ ψ)) := by
+theorem aliasSpec_mapPos (a : Ast) (asn : Option String) (e : Option Ast) :
+    aliasSpec (a.mapPos φ) asn (e.map (Ast.mapPos φ)) = (aliasSpec a asn e).map (fun x => (φ x.1, x.2)) := by
+  cases asn with
+  | none => simp only [aliasSpec, mapPos_pos]; cases a.pos? <;> rfl
+  | some s =>
+    cases e with
+    | none => rfl
+    | some en => simp only [aliasSpec, Option.map_some, mapPos_pos]; cases en.pos? <;> rfl
+
+theorem importAlias_comm {loc start : Pos} {a : Ast} {e : Option Ast} {prog : Prog} (h : importAlias loc start a e = .ok prog) :
+    importAlias (ψ loc) (φ start) (a.mapPos φ) (e.map (Ast.mapPos φ)) = .ok (prog.map (Instr.mapP φ ψ)) := by
   simp only [importAlias, bind_ok_iff] at h
   obtain ⟨asname, h1, aname, h2, h⟩ := h
-  simp only [importAlias, getOptStr_mapPos h1, getStr_mapPos h2, bind, Except.bind]
+  simp only [importAlias, getOptStr_mapPos h1, getStr_mapPos h2, bind, Except.bind, aliasSpec_mapPos]
   split at h <;> (simp only [pure_ok_iff] at h; subst h; rfl)
 
-theorem importAliases_comm {loc start : Pos} : ∀ (l : List Ast) (prog : Prog), importAliases loc start l = .ok prog →
-    importAliases (ψ loc) (φ start) (l.map (Ast.mapPos φ)) = .ok (prog.map (Instr.mapP φ ψ)) := by
+theorem importAliases_comm {loc start : Pos} : ∀ (l es : List Ast) (prog : Prog), importAliases loc start l es = .ok prog →
+    importAliases (ψ loc) (φ start) (l.map (Ast.mapPos φ)) (es.map (Ast.mapPos φ)) = .ok (prog.map (Instr.mapP φ ψ)) := by
   intro l
   induction l with
-  | nil => intro prog h; simp only [importAliases, pure_ok_iff] at h; subst h; rfl
+  | nil => intro es prog h; simp only [importAliases, pure_ok_iff] at h; subst h; rfl
   | cons a r ih =>
-    intro prog h
+    intro es prog h
     simp only [importAliases, bind_ok_iff, pure_ok_iff] at h
     obtain ⟨this, ht, rest, hr, rfl⟩ := h
-    simp only [List.map_cons, importAliases, importAlias_comm ht, ih rest hr, bind, Except.bind, pure, Except.pure,
-      List.map_append]
+    have e1 := importAlias_comm (φ := φ) (ψ := ψ) ht
+    have e2 := ih es.tail rest hr
+    rw [← List.head?_map] at e1
+    rw [List.map_tail] at e2
+    simp only [List.map_cons, importAliases, e1, e2, bind, Except.bind, pure, Except.pure, List.map_append]
 
 theorem compileImport_comm {n : Ast} {prog : Prog} (hn : n.isNode = true) (hq : n.all (posQ φ ψ) = true)
     (h : compileImport n = .ok prog) : compileImport (n.mapPos φ) = .ok (prog.map (Instr.mapP φ ψ)) := by
   simp only [compileImport, bind_ok_iff] at h
-  obtain ⟨loc, h1, start, h2, names, h3, h⟩ := h
-  simp only [compileImport, exprEnd_mapPos (q_of_all hn hq) h1, np_mapPos h2, getNodeList_mapPos h3, bind, Except.bind]
-  exact importAliases_comm names prog h
+  obtain ⟨loc, h1, start, h2, names, h3, ends, h4, h⟩ := h
+  simp only [compileImport, exprEnd_mapPos (q_of_all hn hq) h1, np_mapPos h2, getNodeList_mapPos h3, aliasEnds,
+    optNodeList_mapPos (show optNodeList n "alias_ends" = .ok ends from h4), bind, Except.bind]
+  exact importAliases_comm names ends prog h
 
-theorem importFromAlias_comm {loc start : Pos} {mod : String} {a : Ast} {prog : Prog}
-    (h : importFromAlias loc start mod a = .ok prog) :
-    importFromAlias (ψ loc) (φ start) mod (a.mapPos φ) = .ok (prog.map (Instr.mapP φ ψ)) := by
+theorem importFromAlias_comm {loc start : Pos} {mod : String} {a : Ast} {e : Option Ast} {prog : Prog}
+    (h : importFromAlias loc start mod a e = .ok prog) :
+    importFromAlias (ψ loc) (φ start) mod (a.mapPos φ) (e.map (Ast.mapPos φ)) = .ok (prog.map (Instr.mapP φ ψ)) := by
   simp only [importFromAlias, bind_ok_iff] at h
   obtain ⟨asname, h1, aname, h2, h⟩ := h
-  simp only [importFromAlias, getOptStr_mapPos h1, getStr_mapPos h2, bind, Except.bind]
+  simp only [importFromAlias, getOptStr_mapPos h1, getStr_mapPos h2, bind, Except.bind, aliasSpec_mapPos]
   split at h
   · rename_i hs
     simp only [pure_ok_iff] at h; subst h
@@ -136,31 +149,36 @@ theorem importFromAlias_comm {loc start : Pos} {mod : String} {a : Ast} {prog : 
     simp only [pure_ok_iff] at h; subst h
     rw [if_neg hs]; rfl
 
-theorem importFromAliases_comm {loc start : Pos} {mod : String} : ∀ (l : List Ast) (prog : Prog),
-    importFromAliases loc start mod l = .ok prog →
-    importFromAliases (ψ loc) (φ start) mod (l.map (Ast.mapPos φ)) = .ok (prog.map (Instr.mapP φ ψ)) := by
+theorem importFromAliases_comm {loc start : Pos} {mod : String} : ∀ (l es : List Ast) (prog : Prog),
+    importFromAliases loc start mod l es = .ok prog →
+    importFromAliases (ψ loc) (φ start) mod (l.map (Ast.mapPos φ)) (es.map (Ast.mapPos φ)) =
+      .ok (prog.map (Instr.mapP φ ψ)) := by
   intro l
   induction l with
-  | nil => intro prog h; simp only [importFromAliases, pure_ok_iff] at h; subst h; rfl
+  | nil => intro es prog h; simp only [importFromAliases, pure_ok_iff] at h; subst h; rfl
   | cons a r ih =>
-    intro prog h
+    intro es prog h
     simp only [importFromAliases, bind_ok_iff, pure_ok_iff] at h
     obtain ⟨this, ht, rest, hr, rfl⟩ := h
-    simp only [List.map_cons, importFromAliases, importFromAlias_comm ht, ih rest hr, bind, Except.bind, pure,
-      Except.pure, List.map_append]
+    have e1 := importFromAlias_comm (φ := φ) (ψ := ψ) ht
+    have e2 := ih es.tail rest hr
+    rw [← List.head?_map] at e1
+    rw [List.map_tail] at e2
+    simp only [List.map_cons, importFromAliases, e1, e2, bind, Except.bind, pure, Except.pure, List.map_append]
 
 theorem compileImportFrom_comm {n : Ast} {prog : Prog} (hn : n.isNode = true) (hq : n.all (posQ φ ψ) = true)
     (h : compileImportFrom n = .ok prog) : compileImportFrom (n.mapPos φ) = .ok (prog.map (Instr.mapP φ ψ)) := by
   simp only [compileImportFrom, bind_ok_iff] at h
-  obtain ⟨loc, h1, start, h2, names, h3, h⟩ := h
-  simp only [compileImportFrom, exprEnd_mapPos (q_of_all hn hq) h1, np_mapPos h2, getNodeList_mapPos h3, bind, Except.bind]
+  obtain ⟨loc, h1, start, h2, names, h3, ends, h4, h⟩ := h
+  simp only [compileImportFrom, exprEnd_mapPos (q_of_all hn hq) h1, np_mapPos h2, getNodeList_mapPos h3, aliasEnds,
+    optNodeList_mapPos (show optNodeList n "alias_ends" = .ok ends from h4), bind, Except.bind]
   cases names with
   | nil => simp only [pure_ok_iff] at h; subst h; rfl
   | cons a r =>
     simp only [bind_ok_iff] at h
-    obtain ⟨level, h4, module, h5, h⟩ := h
-    simp only [List.map_cons, getInt_mapPos h4, getOptStr_mapPos h5, bind, Except.bind]
-    exact importFromAliases_comm (a :: r) prog h
+    obtain ⟨level, h5, module, h6, h⟩ := h
+    simp only [List.map_cons, getInt_mapPos h5, getOptStr_mapPos h6, bind, Except.bind]
+    exact importFromAliases_comm (a :: r) ends prog h
 
 theorem compileReturn_comm {n : Ast} {prog : Prog} (h : compileReturn n = .ok prog) :
     compileReturn (n.mapPos φ) = .ok (prog.map (Instr.mapP φ ψ)) := by
